@@ -21,6 +21,7 @@
      l = r, l != r : Boolean      l, r : the same type among String, Number, Boolean
      l ^= r, l ~= r : Boolean     l, r : String
      l < r (> <= >=) : Boolean    l, r : both String or both Number
+     (side rule for = != ^= ~= < > <= >=: l and r are not both the keyword key, nor both value)
      l + r : String               l, r : String          (concatenation)
      l + r, l - r, l * r : Number l, r : Number
      l / r : Number               l, r : Number, r not the literal zero
@@ -28,14 +29,21 @@
      l in r : Boolean             l : String or Number, r a function call or a field name, r : list
      l between lo and hi : Boolean   l : String or Number, lo, hi : the type of l
      f(a1, ..., an) : result type of f    f in the scalar function table with n permitted,
-                                  every ai typable; start / end of substr : Number,
+                                  every ai typable; the documented parameter types that the
+                                  functions insist on (NOT among the faults property C14
+                                  lists; the checker tests them only when the function runs,
+                                  and the check does not judge them): start / end of substr : Number,
                                   separator of split and of join, argument of json : String,
                                   argument of len : not Boolean / json,
                                   arguments of the distance functions : list or json
      g(a1, ..., an) : result type of g    g in the aggregate function table, every ai typable
      l[f] : String                l : json and f a string literal, or l : list and f a number
                                   literal, or l itself a field access and f a string or number
-                                  literal (cascaded access: the element type is dynamic)
+                                  literal (cascaded access).  The ELEMENT of a JSON value or
+                                  of a list value is dynamically typed (a list may hold
+                                  numbers): like JSON field access, indexing into a list and
+                                  IN over a list-valued function / field are excepted from the
+                                  "no operand-type error at execution" half of the property
      (x1, ..., xn) : list         only as the right side of IN / BETWEEN; n >= 1, one type
 
    Where aggregate functions may stand is a separate judgement ([calls_placed]): at the top of
@@ -122,6 +130,20 @@ Definition params_ok (name : string) (ts : list sty) : bool :=
   else if String.eqb name "cosine_distance" || String.eqb name "l2_distance" then
     list_like (nth 0 ts SUnknown) && list_like (nth 1 ts SUnknown)
   else true.
+
+(* comparisons: a comparison of the key field with itself (or of value with itself) is not a
+   statement of the language (the checker's "operator with two same field") *)
+Definition same_field (l r : expr) : bool :=
+  match l, r with
+  | EField _ KeyKW, EField _ KeyKW | EField _ ValueKW, EField _ ValueKW => true
+  | _, _ => false
+  end.
+
+Definition is_compare_op (o : op) : bool :=
+  match o with
+  | OEq | ONotEq | OPrefixMatch | ORegExpMatch | OGt | OGte | OLt | OLte => true
+  | _ => false
+  end.
 
 (* function names are case-insensitive ASCII *)
 Definition fname (n : expr) : option string :=
@@ -213,10 +235,12 @@ Fixpoint infer (e : expr) {struct e} : option sty :=
       | None => None
       end
   | EBin _ o l r =>
-      match infer l, infer r with
-      | Some tl, Some tr => bin_type o tl tr r
-      | _, _ => None
-      end
+      if is_compare_op o && same_field l r then None
+      else
+        match infer l, infer r with
+        | Some tl, Some tr => bin_type o tl tr r
+        | _, _ => None
+        end
   | ECall _ n args =>
       match fname n with
       | None => None
